@@ -27,6 +27,7 @@ func (cs clauses) call(vm *VM, args []Term, k Cont, env *Env) *Promise {
 			for i := range vars {
 				vars[i] = NewVariable()
 			}
+			verifOnActivate(&c, args, env)
 			return vm.exec(c.bytecode, vars, k, args, nil, env, p)
 		}
 	}
